@@ -516,6 +516,75 @@ class TsonisFamily(ClimateFamily):
         m["winter"] = bool(arg)
 
 
+
+class DerivedClimateFamily(TsonisFamily):
+    """Data-derived climate networks: Spearman, MutualInfo, Hilbert
+    (directed / undirected), Havlin."""
+
+    def __init__(self, kind):
+        TsonisFamily.__init__(self)
+        self.kind = kind
+        self.name = kind + "ClimateNetwork"
+        self.queries.pop("correlation", None)
+        self.queries.pop("winter_only", None)
+        del self.mutators["set_winter_only"]
+        if kind in ("Spearman", "MutualInfo"):
+            self.mutators["set_winter_only"] = self.m_winter
+            self.queries["winter_only"] = call("winter_only")
+        if kind == "MutualInfo":
+            # the default dump=True writes a file cache into the cwd; it is
+            # a separate mutator so that its failure has its own signature
+            self.mutators["set_winter_only"] = self.m_winter_nodump
+            self.mutators["set_winter_only_dump_default"] = self.m_winter
+        if kind == "Hilbert":
+            self.mutators["set_directed"] = self.m_directed
+            self.queries["phase_shift"] = call("phase_shift")
+            self.queries["coherence"] = call("coherence")
+        if kind == "Havlin":
+            self.mutators["set_max_delay"] = self.m_delay
+            self.queries["correlation_lag"] = call("correlation_lag")
+            self.queries["correlation_strength"] = \
+                call("correlation_strength")
+
+    def init_model(self, case):
+        m = TsonisFamily.init_model(self, case)
+        m["directed"] = bool(case.get("directed", False))
+        m["delay"] = int(case.get("delay", 2))
+        return m
+
+    def build(self, m):
+        from pyunicorn.core import GeoGrid
+        from pyunicorn import climate
+        X = np.array(m["data"], dtype=float)
+        grid = GeoGrid(np.arange(float(len(X))),
+                       np.array(m["lat"], dtype=float),
+                       np.array(m["lon"], dtype=float), silence_level=3)
+        data = climate.ClimateData(observable=X, grid=grid, time_cycle=12,
+                                   silence_level=3)
+        cls = getattr(climate, self.kind + "ClimateNetwork")
+        kw = dict(threshold=m["thr"], non_local=m["nl"],
+                  node_weight_type=m["nwt"], silence_level=3)
+        if self.kind in ("Spearman", "MutualInfo"):
+            kw["winter_only"] = m["winter"]
+        if self.kind == "Hilbert":
+            kw["directed"] = m["directed"]
+        if self.kind == "Havlin":
+            kw["max_delay"] = m["delay"]
+        return cls(data, **kw)
+
+    def m_winter_nodump(self, o, m, arg):
+        o.set_winter_only(bool(arg), dump=False)
+        m["winter"] = bool(arg)
+
+    def m_directed(self, o, m, arg):
+        o.set_directed(bool(arg))
+        m["directed"] = bool(arg)
+
+    def m_delay(self, o, m, arg):
+        o.set_max_delay(int(arg))
+        m["delay"] = int(arg)
+
+
 # ------------------------------------------------------ recurrence family
 
 RP_MODES = ["threshold", "threshold_std", "recurrence_rate",
@@ -802,6 +871,14 @@ def fam(name):
             "ResNetwork": ResFamily,
             "Surrogates": SurFamily,
             "ClimateData": DataFamily,
+            "SpearmanClimateNetwork":
+                lambda: DerivedClimateFamily("Spearman"),
+            "MutualInfoClimateNetwork":
+                lambda: DerivedClimateFamily("MutualInfo"),
+            "HilbertClimateNetwork":
+                lambda: DerivedClimateFamily("Hilbert"),
+            "HavlinClimateNetwork":
+                lambda: DerivedClimateFamily("Havlin"),
         }[name]()
     return FAMILIES[name]
 
@@ -992,6 +1069,41 @@ def data_cases(draw):
             "ops": draw(ops_strategy("ClimateData", margs))}
 
 
+
+@st.composite
+def derived_cases(draw):
+    kind = draw(st.sampled_from(["Spearman", "MutualInfo", "Hilbert",
+                                 "Havlin"]))
+    fam_name = kind + "ClimateNetwork"
+    n = draw(st.integers(3, 5))
+    T = 24
+    la, lo = _coords(n)
+    # distinct, non-constant columns (degenerate data is C10's business)
+    data = draw(st.lists(st.lists(st.integers(-40, 40).map(
+        lambda k: k / 8.0), min_size=n, max_size=n), min_size=T, max_size=T))
+    for t in range(T):
+        for i in range(n):
+            data[t][i] += ((7 * t + 3 * i) % 5) / 64.0 + (t % 12) / 8.0
+    thr = st.integers(0, 19).map(lambda k: k / 20.0 + 0.025)
+    margs = {"set_threshold": thr,
+             "set_link_density": st.integers(1, 9).map(lambda k: k / 10.0),
+             "set_non_local": st.booleans()}
+    if kind in ("Spearman", "MutualInfo"):
+        margs["set_winter_only"] = st.booleans()
+    if kind == "MutualInfo" and draw(st.integers(0, 7)) == 0:
+        margs["set_winter_only_dump_default"] = st.booleans()
+    if kind == "Hilbert":
+        margs["set_directed"] = st.booleans()
+    if kind == "Havlin":
+        margs["set_max_delay"] = st.integers(1, 4)
+    return {"family": fam_name, "data": data, "lat": draw(la),
+            "lon": draw(lo), "thr": draw(thr), "nl": draw(st.booleans()),
+            "nwt": draw(st.sampled_from([None, "surface"])),
+            "winter": draw(st.booleans()), "directed": draw(st.booleans()),
+            "delay": draw(st.integers(1, 3)),
+            "ops": draw(ops_strategy(fam_name, margs, n_max=10))}
+
+
 def _sub(name, gen, q, t):
     return SubCheck(name, oracle, gen=gen, quick=q, thorough=t)
 
@@ -1014,6 +1126,7 @@ SUBCHECKS = [
     _sub("resistive", res_cases, (2, 80), (8, 800)),
     _sub("surrogates", sur_cases, (2, 80), (4, 1000)),
     _sub("climate_data", data_cases, (2, 100), (4, 1500)),
+    _sub("derived_climate", derived_cases, (4, 40), (8, 500)),
 ]
 
 
